@@ -11,8 +11,8 @@
    [dflt e].  [s] = quad set + known graph names; [a] is any list that is the
    same *set* of quads as the store content.  [scope e o] says that the front
    end has named graphs or the operation needs none (a plain Graph is a store
-   with one graph).  [op_kf] is the known-finding trigger (only F10f is left:
-   DELETE WHERE { GRAPH ?g {..} }), [kinv] the store invariant "every graph
+   with one graph).  [op_kf] is the known-finding trigger (only F10i is left:
+   USING NAMED does not restrict the WHERE dataset; it can fire for ModifyW only), [kinv] the store invariant "every graph
    holding a quad is known". *)
 From Coq Require Import Permutation.
 From RV Require Import Update.Model Update.Proofs Update.Ops Update.Where Update.Seq.
@@ -96,8 +96,7 @@ Print Assumptions C10_modify.
    merge graph; WITH only without USING / USING NAMED; every named graph stays
    visible).  [s_omega] = the bottom-up algebra (SPARQL 1.1 section 18) over the
    query dataset SPARQL 1.1 Update 3.1.3 prescribes.  Outside the regions of
-   F10i (USING NAMED does not restrict the dataset) and F10j (a Dataset with the
-   switch on still reads its real default graph) they are the same multiset,
+   F10i (USING NAMED does not restrict the dataset) they are the same multiset,
    for every store without duplicates (and without C04's two boolean ids). *)
 Theorem C10_where_solutions : forall e k w ud un d i p a,
   walg p = true -> (forall names, Sparql.Agreement.frag names [] p = true) ->
@@ -132,6 +131,22 @@ Theorem C10_modify_where_exact : forall e k s w ud un d i p,
     /\ qseteq (quads s') (spec_op e k (ModifyW w ud un d i p) (quads s)) /\ kinv s'.
 Proof. exact step_where. Qed.
 Print Assumptions C10_modify_where_exact.
+
+(* DELETE WHERE (after the repair of F10f), solutions computed by the model:
+   evalBGP for the triples outside GRAPH, evalPart of a Graph node per block,
+   _join - a permutation of the solutions of the quad pattern, read as a group
+   graph pattern, over the store's own dataset; no trigger is left *)
+Theorem C10_delete_where_solutions : forall e tm a, NoDup a -> terms_nb a ->
+  Permutation (dw_omega e tm a) (s_omega e None [] [] (dw_alg tm) a).
+Proof. exact dw_solutions. Qed.
+Print Assumptions C10_delete_where_solutions.
+
+Theorem C10_delete_where_in_model : forall e k s tm, store_ok (quads s) -> kinv s ->
+  scope e (DeleteWhereW tm) -> tmpl_nolabel (Some tm) = true ->
+  exists s', eval_op e k (DeleteWhereW tm) s = Ok s'
+    /\ qseteq (quads s') (spec_op e k (DeleteWhereW tm) (quads s)) /\ kinv s'.
+Proof. exact step_delete_where. Qed.
+Print Assumptions C10_delete_where_in_model.
 
 (* a whole request (the computed WHERE in first position): model = specification *)
 Theorem C10_request : forall c, wf c -> kf c = 0 ->
@@ -210,7 +225,7 @@ Print Assumptions C10_move.
 (* Graphs the operation does not name stay equal (data and management
    operations: [op_graphs] lists the graphs named). *)
 Theorem C10_untouched : forall e k o a c,
-  match o with Modify _ _ _ _ _ _ | ModifyW _ _ _ _ _ _ | DeleteWhere _ _ => False | _ => True end ->
+  match o with Modify _ _ _ _ _ _ | ModifyW _ _ _ _ _ _ | DeleteWhere _ _ | DeleteWhereW _ => False | _ => True end ->
   ~ op_graphs e o c -> forall t, In (t, c) (spec_op e k o a) <-> In (t, c) a.
 Proof. exact spec_untouched_data. Qed.
 Print Assumptions C10_untouched.
